@@ -156,6 +156,14 @@ def _sym(v: Sym):
         return f"{kind}(" + ", ".join(sorted(parts)) + ")"
     if fn == "neg" and len(v.args) == 1:
         return f"-({nf(v.args[0])})"
+    if fn == "upd" and len(v.args) == 4:
+        return f"upd({nf(v.args[0])}, {_index(('value', v.args[1]))}, {v.args[2]}, {nf(v.args[3])})"
+    if fn in ("-", "+") and len(v.args) == 2 and not v.kw:
+        # x -/+ (row d of the identity matrix) is x with entry d decreased / increased by one (defined only where the lengths agree)
+        e = v.args[1]
+        if isinstance(e, Sym) and e.attr == "[]" and e.index is not None and e.index[0] == "value" and isinstance(e.index[1], int) and not isinstance(e.index[1], bool) \
+                and isinstance(e.recv, Sym) and nf(e.recv).startswith(("np.eye(", "np.identity(")):
+            return f"upd({nf(v.args[0])}, {e.index[1]}, {fn}, 1)"
     if fn in ("-", "/", "//", "**", "@", "%", "<", "<=", "==", "!=") and len(v.args) == 2 and not v.kw:
         return f"({nf(v.args[0])} {fn} {nf(v.args[1])})"
     return f"{fn}({_args(v)})"
